@@ -196,7 +196,11 @@ impl<'a> Dec<'a> {
                     if self.ch.flag() {
                         QOp::RepoRemove
                     } else {
-                        QOp::UserTyped(self.n(4) as u8, self.text())
+                        if self.ch.flag() {
+                            QOp::UserTyped(self.n(4) as u8, self.text())
+                        } else {
+                            QOp::IterMethod(self.n(8) as u8, self.n(5) as u8, self.ch.flag())
+                        }
                     }
                 },
             },
@@ -247,7 +251,11 @@ impl<'a> Dec<'a> {
                     if self.ch.flag() {
                         Action::ClearQualifiers
                     } else {
-                        Action::IndexSet(self.pick(&["checksum", "Checksum", "a", "k"][..]).to_string(), self.pick(CK_TEXTS).to_string())
+                        if self.ch.flag() {
+                            Action::IndexSet(self.pick(&["checksum", "Checksum", "a", "k"][..]).to_string(), self.pick(CK_TEXTS).to_string())
+                        } else {
+                            Action::Reenter(self.pick(&["pkg:cargo/foo@1.0", "pkg:t/%80", "x", "pkg:pypi/A_b?k=v#s"][..]).to_string())
+                        }
                     }
                 },
             })
